@@ -5,7 +5,7 @@ import random
 from common import enc, enc_opt
 
 NAMES = ["a", "b", "c"]
-DOMS = [None, "d1", "d2"]
+DOMS = [None, "d1", "", "DEFAULT"]   # the empty name and the literal name of the default domain are legal domain names
 
 
 def op_str(o):
@@ -94,7 +94,7 @@ def generate(tier, seed):
         for _ in range(extra):
             r = rnd.random()
             x, y = rnd.choice(names12), rnd.choice(names12)
-            dd = rnd.choice([d, d, None, "d1", "d2"])
+            dd = rnd.choice([d, d, None, "d1", "d2", ""])
             if r < 0.55:
                 ops.append(("A", x, y, dd))
             elif r < 0.97:
@@ -104,7 +104,7 @@ def generate(tier, seed):
         hl = len(ops) // 10 * 10
         dist["hist_len"][hl] = dist["hist_len"].get(hl, 0) + 1
         qs12 = [("H", names12[0], n, d) for n in names12] + [("H", rnd.choice(names12), rnd.choice(names12), dd)
-                                                            for dd in (None, "d1", "d2") for _ in range(6)]
+                                                            for dd in (None, "d1", "d2", "") for _ in range(5)]
         qs12 += [("R", n, d) for n in names12[:6]] + [("U", n, d) for n in names12[:6]]
         cases.append(case(rnd.choice([10, 10, 10, 9, 11, 5]), ops, qs12))
     mdist = gen_rmm(tier, rnd, cases)
@@ -114,7 +114,7 @@ def generate(tier, seed):
         "rule": ("[matching functions] role-manager histories with RoleManager::matching_fn installed (key_match / key_match2 / key_match3 / a symmetric "
                  "harness-defined function; role and domain patterns): exhaustive histories of <= 2 link operations after the installation over pattern-bearing "
                  "name sets, seeded random add-only 'pattern histories' (checked against the declarative pattern-reachability spec) and random histories with "
-                 "deletes, clears and re-installations (model = implementation only). [plain] ""every history of add_link/delete_link/clear of length <= %d over 3 names (self-pairs included) x {None,d1,d2} "
+                 "deletes, clears and re-installations (model = implementation only). [plain] ""every history of add_link/delete_link/clear of length <= %d over 3 names (self-pairs included) x {None, d1, the empty domain name, the literal name DEFAULT} "
                  "(%d histories; the longest ones with hierarchy limits 10,1,2,3 in rotation), each followed by all has_link/get_roles/get_users "
                  "queries over those names plus an unknown name; %d random link sets over 4 names with limits 0..4; %d seeded random histories "
                  "over 12 names containing a chain of 7..11 links (limit 5/9/10/11). non-trivial = history with at least one link present at the end"
@@ -130,7 +130,7 @@ MNAMES = {
     "km3": ["/b/1", "/b/{id}", "/p/1", "/p/{x}", "alice", "grp"],
     "fe": ["a1", "a2", "b1", "b2", "c"],
 }
-MDOMS = [None, "d1", "d2", "*", "d*"]
+MDOMS = [None, "d1", "d2", "*", "d*", ""]
 
 
 def mop_str(o):
